@@ -14,7 +14,7 @@
    is not stated here (see the manifest). *)
 From Coq Require Import ZArith NArith List Bool Arith.
 From CL Require Import Base.Sx Base.Res Base.Str Model.AddRemove Model.Channels
-                       Proofs.ChannelsProofs Proofs.ChannelsSpec.
+                       Proofs.ChannelsProofs Proofs.ChannelsSpec Proofs.ChannelsIdentical.
 Import ListNotations.
 Local Open Scope nat_scope.
 
@@ -57,6 +57,13 @@ Theorem C15_single : forall name p v, get_parser name = Ok (Some p) -> ukeys v -
   merge_channels name [v] = Ok (concat (map c_text v)).
 Proof. exact merge_single. Qed.
 
+(* identical versions (every parse creates new whitespace objects) come back
+   text-identical, when no two whitespace entries are adjacent in the version *)
+Theorem C15_identical : forall name p v n, get_parser name = Ok (Some p) -> ukeys v ->
+  no_adj_white v ->
+  merge_channels name (repeat v (S n)) = Ok (concat (map c_text v)).
+Proof. exact merge_identical. Qed.
+
 (* no parser for the name: refused explicitly; looking for the parser never fails otherwise *)
 Theorem C15_unsupported : forall name vs, get_parser name = Ok None ->
   merge_channels name vs = Raise NotSupported.
@@ -85,6 +92,16 @@ Qed.
 Example C15_example_merge :
   merge_channels (s [102;46;105;110;105]) [ex_new; ex_old] =
   Ok (s [97;61;49;10; 35;32;99;10;10; 122;61;51;10; 98;61;50;10]).
+Proof. vm_compute. reflexivity. Qed.
+
+Example C15_example_identical_hyps : ukeys ex_old /\ no_adj_white ex_old.
+Proof.
+  split; [|cbn; intuition].
+  unfold ukeys. cbn. repeat (apply NoDup_cons; [cbn; intuition discriminate|]). apply NoDup_nil.
+Qed.
+
+Example C15_example_identical :
+  merge_channels (s [102;46;105;110;105]) [ex_old; ex_old; ex_old] = Ok (concat (map c_text ex_old)).
 Proof. vm_compute. reflexivity. Qed.
 
 Example C15_example_parser :
